@@ -81,7 +81,8 @@ impl Bbr {
             high_cwnd_gain: K_DEFAULT_HIGH_GAIN,
             last_cycle_start: None,
             current_cycle_offset: 0,
-            init_cwnd: initial_window,
+            // as in `on_mtu_update`: never below `min_cwnd`
+            init_cwnd: initial_window.max(calculate_min_window(current_mtu as u64)),
             min_cwnd: calculate_min_window(current_mtu as u64),
             prev_in_flight_count: 0,
             exit_probe_rtt_at: None,
@@ -92,7 +93,7 @@ impl Bbr {
             max_acked_packet_number: 0,
             max_sent_packet_number: 0,
             end_recovery_at_packet_number: 0,
-            cwnd: initial_window,
+            cwnd: initial_window.max(calculate_min_window(current_mtu as u64)),
             current_round_trip_end_packet_number: 0,
             round_count: 0,
             bw_at_last_round: 0,
